@@ -35,28 +35,32 @@ class FeedbackFieldWrapper:
         formatter (Formatter): The formatter to use from the report.
     """
     def __init__(self, key, value, formatter):
-        self.key = key
-        self.value = value
-        self.formatter = formatter
+        # Private names: `{field.value}`, `{field.key}` and `{field.formatter}`
+        # in a template are attributes of the wrapped value, not of the wrapper
+        self._wrapped_key = key
+        self._wrapped_value = value
+        self._wrapped_formatter = formatter
 
     def __getattr__(self, key):
-        return FeedbackFieldWrapper(self.key, getattr(self.value, key), self.formatter)
+        return FeedbackFieldWrapper(self._wrapped_key, getattr(self._wrapped_value, key),
+                                    self._wrapped_formatter)
 
     def __getitem__(self, index):
-        return FeedbackFieldWrapper(self.key, self.value[index], self.formatter)
+        return FeedbackFieldWrapper(self._wrapped_key, self._wrapped_value[index],
+                                    self._wrapped_formatter)
 
     def __repr__(self):
-        return repr(self.value)
+        return repr(self._wrapped_value)
 
     def __str__(self):
-        return str(self.value)
+        return str(self._wrapped_value)
 
     def __format__(self, format_spec):
-        value = str(self.value)
-        for formatter_name in self.formatter.available:
+        value = str(self._wrapped_value)
+        for formatter_name in self._wrapped_formatter.available:
             if format_spec.endswith(formatter_name):
                 format_spec = chomp_spec(format_spec, formatter_name)
-                value = getattr(self.formatter, formatter_name)(self.value)
+                value = getattr(self._wrapped_formatter, formatter_name)(self._wrapped_value)
                 break
         return value.__format__(format_spec)
 
